@@ -84,6 +84,9 @@ class Par:
         self.t = {k: pick(TS) for k in ("theta", "phi", "int_", "ext")}
         self.u = pick(US)
         self.s = pick(SS)
+        # whole turns added to the float angle given to piquasso: the model's cos/sin symbols do
+        # not change, the implementation must not either
+        self.turns = {k: rng.choice((0, 0, 0, 1, -1, 2, -2)) for k in self.t}
         if special:
             for k in self.t:
                 self.t[k] = pick([Fraction(0), Fraction(1), Fraction(-1), self.t[k]])
@@ -102,7 +105,7 @@ class Par:
             elif p == "s":
                 out[p] = float(self.s)
             else:
-                out[p] = 2.0 * math.atan(float(self.t[p]))
+                out[p] = 2.0 * math.atan(float(self.t[p])) + 2.0 * math.pi * self.turns[p]
         return out
 
     def key(self, gate):
@@ -345,7 +348,7 @@ def run(chk: Check):
                samples=[{"d": c["d"], "hbar": str(c["hbar"]), "ops": [list(map(str, o[2])) for o in c["ops"]]} for c in cases[100:102]],
                note="%d of the sequences end in an operation on an ordered subset enumerated exhaustively" % (len(cases) - (NRAND_T if chk.thorough else NRAND_Q)))
 
-    search(chk, cases)
+    search(chk, list(zip(cases, impl)))
     finish(chk, corr_broken)
 
 
@@ -354,107 +357,300 @@ def _c(m):
     return a[..., 0] + 1j * a[..., 1]
 
 
-def _embed(d, modes, P, A):
-    """2d x 2d complex-form matrix [[Pf, Af], [conj Af, conj Pf]] of (P, A) on `modes`"""
+def _embed_PA(d, modes, P, A):
     Pf = np.identity(d, dtype=complex)
     Af = np.zeros((d, d), dtype=complex)
     for a, ma in enumerate(modes):
         for b, mb in enumerate(modes):
             Pf[ma, mb] = P[a][b]
             Af[ma, mb] = 0 if A is None else A[a][b]
+    return Pf, Af
+
+
+def _embed(d, modes, P, A):
+    """2d x 2d complex-form matrix [[Pf, Af], [conj Af, conj Pf]] of (P, A) on `modes`"""
+    Pf, Af = _embed_PA(d, modes, P, A)
     return np.block([[Pf, Af], [Af.conj(), Pf.conj()]])
 
 
-GRID_ANGLE = [0.0, math.pi / 2, math.pi, -math.pi / 3, 1e-8, 1e3, 2.5]
+# ---- the documented matrices, written from the docstrings of piquasso/instructions/gates.py
+def doc_blocks(name, p):
+    e = lambda x: complex(math.cos(x), math.sin(x))
+    if name == "Beamsplitter":
+        t, r = math.cos(p["theta"]), e(p["phi"]) * math.sin(p["theta"])
+        return np.array([[t, -r.conjugate()], [r, t]]), None
+    if name == "Beamsplitter5050":
+        return np.array([[1, -1], [1, 1]], dtype=complex) / math.sqrt(2), None
+    if name == "Phaseshifter":
+        return np.array([[e(p["phi"])]]), None
+    if name == "MachZehnder":
+        ei, ee = e(p["int_"]), e(p["ext"])
+        return 0.5 * np.array([[ee * (ei - 1), 1j * (ei + 1)], [1j * ee * (ei + 1), 1 - ei]]), None
+    if name == "Fourier":
+        return np.array([[1j]]), None
+    if name == "Squeezing":
+        return np.array([[math.cosh(p["r"]) + 0j]]), np.array([[-e(p.get("phi", 0.0)) * math.sinh(p["r"])]])
+    if name == "QuadraticPhase":
+        return np.array([[1 + 0.5j * p["s"]]]), np.array([[0.5j * p["s"]]])
+    if name == "Squeezing2":
+        c, z = math.cosh(p["r"]), e(p.get("phi", 0.0)) * math.sinh(p["r"])
+        return np.array([[c, 0], [0, c]], dtype=complex), np.array([[0, z], [z, 0]])
+    if name == "ControlledX":
+        h = p["s"] / 2
+        return np.array([[1, -h], [h, 1]], dtype=complex), np.array([[0, h], [h, 0]], dtype=complex)
+    if name == "ControlledZ":
+        h = 0.5j * p["s"]
+        return np.array([[1, h], [h, 1]]), np.array([[0, h], [h, 0]])
+    raise ValueError(name)
+
+
+def doc_alpha(name, p):
+    if name == "Displacement":
+        return p["r"] * complex(math.cos(p.get("phi", 0.0)), math.sin(p.get("phi", 0.0)))
+    if name == "PositionDisplacement":
+        return complex(p["x"], 0.0)
+    if name == "MomentumDisplacement":
+        return complex(0.0, p["p"])
+    return None
+
+
+def ref_run(d, hbar, ops, upto=None):
+    """Reference evolution of (m, C, G) by the documented ladder-operator maps
+    a -> Pf a + Af a^dagger (+ alpha): independent of the Coq model and of piquasso's blocks."""
+    m = np.zeros(d, dtype=complex)
+    C = np.zeros((d, d), dtype=complex)
+    G = np.zeros((d, d), dtype=complex)
+    I = np.identity(d)
+    for op in ops[:upto]:
+        k = op["k"]
+        if k == "snap":
+            continue
+        modes = list(op["modes"])
+        if k == "gate":
+            alpha = doc_alpha(op["name"], op["params"])
+            if alpha is not None:
+                m = m.copy()
+                m[modes] += alpha
+                continue
+            P, A = doc_blocks(op["name"], op["params"])
+        elif k in ("interf", "rawp"):
+            P, A = _c(op["matrix"] if k == "interf" else op["P"]), None
+        elif k in ("raw", "gt"):
+            P, A = _c(op["P"]), _c(op["A"])
+        else:
+            raise ValueError(k)
+        Pf, Af = _embed_PA(d, modes, P, A)
+        m = Pf @ m + Af @ m.conj()
+        G, C = (Pf @ G @ Pf.T + Af @ G.conj().T @ Af.T + Pf @ (C.T + I) @ Af.T + Af @ C @ Pf.T,
+                Pf.conj() @ C @ Pf.T + Af.conj() @ (C.T + I) @ Af.T + Pf.conj() @ G.conj().T @ Af.T + Af.conj() @ G @ Pf.T)
+    mean = np.concatenate([m.real, m.imag]) * math.sqrt(2 * hbar)
+    cov = hbar * (2 * np.block([[(G + C).real, (G + C).imag], [(G - C).imag, (C - G).real]]) + np.identity(2 * d))
+    return mean, cov
+
+
+def seq_error(d, hbar, ops, r):
+    """max deviation of the implementation's xxpp mean/covariance from the reference, relative
+    to 1e-9 (1 + magnitude); > 1 is a failure"""
+    mean, cov = ref_run(d, hbar, ops)
+    em = np.abs(np.array(r["mean"]) - mean).max() / (1e-9 * (1 + np.abs(mean).max()))
+    ec = np.abs(np.array(r["cov"]) - cov).max() / (1e-9 * (1 + np.abs(cov).max()))
+    return float(em), float(ec)
+
+
+TWO_PI = 2 * math.pi
+# every angle parameter is also tried outside (-pi, pi] and beyond 2 pi, 3 pi, 4 pi, in both signs
+GRID_ANGLE = [0.0, math.pi / 2, math.pi, -math.pi / 3, 1e-8, 2.5, 4.0, -3.5, TWO_PI + 1.0, -TWO_PI - 1.0,
+              3 * math.pi + 0.5, -3 * math.pi - 0.5, 4 * math.pi + 0.3, -4 * math.pi - 0.3, 17.0, -23.0, 1e3]
 GRID_R = [0.0, 1e-8, 0.5, -1.3, 3.0]
 GRID_S = [0.0, 1e-8, -2.5, 1e3]
 
 
-def search(chk, cases):
-    """the property stated directly on the implementation (numerically, no model)"""
+def _grid(p):
+    return GRID_R if p == "r" else GRID_S if p == "s" else GRID_ANGLE
+
+
+def wide_angle(rng):
+    return rng.choice(GRID_ANGLE[5:-1]) if rng.random() < 0.5 else rng.uniform(-14.0, 14.0)
+
+
+def rand_params(rng, name):
+    return {p: (rng.uniform(-0.8, 0.8) if p == "r" else rng.uniform(-2, 2) if p == "s" else wide_angle(rng))
+            for p in GATE_PARAMS[name]}
+
+
+def fgate(name, modes, **params):
+    return {"k": "gate", "name": name, "params": params, "modes": list(modes)}
+
+
+def rand_unitary(rng, k):
+    z = np.array([[complex(rng.gauss(0, 1), rng.gauss(0, 1)) for _ in range(k)] for _ in range(k)])
+    q, _ = np.linalg.qr(z)
+    return q
+
+
+def cl(mat):
+    return [[[float(x.real), float(x.imag)] for x in row] for row in np.asarray(mat)]
+
+
+def rand_gaussian_transform(rng, modes):
+    """squeezers after a random unitary: P = ch U, A = -sh e^{i phi} conj(U); neither block is symmetric"""
+    k = len(modes)
+    U = rand_unitary(rng, k)
+    r = np.array([rng.uniform(0.2, 0.7) * rng.choice((-1, 1)) for _ in range(k)])
+    ph = np.array([rng.uniform(-3, 3) for _ in range(k)])
+    P = np.diag(np.cosh(r)) @ U
+    A = np.diag(-np.sinh(r) * np.exp(1j * ph)) @ U.conj()
+    return {"k": "gt", "P": cl(P), "A": cl(A), "modes": list(modes)}
+
+
+def entangled_prefix(rng, d):
+    """displaced, squeezed and entangled state: displacement and squeezing on every mode, then a
+    chain of beamsplitters through all modes in random order"""
+    ops = []
+    for i in range(d):
+        ops.append(fgate("Displacement", (i,), r=rng.uniform(0.3, 1.2) * rng.choice((-1, 1)), phi=rng.uniform(-3, 3)))
+        ops.append(fgate("Squeezing", (i,), r=rng.uniform(0.2, 0.7) * rng.choice((-1, 1)), phi=rng.uniform(-3, 3)))
+    order = list(range(d))
+    rng.shuffle(order)
+    for a, b in zip(order, order[1:]):
+        ops.append(fgate("Beamsplitter", (a, b), theta=rng.uniform(0.3, 1.2), phi=rng.uniform(-3, 3)))
+    return ops
+
+
+def op_label(op):
+    return op.get("name") or {"interf": "Interferometer", "gt": "GaussianTransform", "raw": "_apply_linear",
+                              "rawp": "_apply_passive_linear"}[op["k"]]
+
+
+def fail_key(case, em, ec):
+    last = case["ops"][-1]
+    return "C07:GaussianSimulator:%s:not-the-documented-congruence:k=%d:%s" % (
+        op_label(last), len(last["modes"]), "mean" if ec <= 1 else "covariance")
+
+
+def shrink_many(cases, rounds=14):
+    """Batched delta-debugging of failing programs: first the shortest failing prefix, then greedy
+    removal of any single operation while the implementation still deviates from the documented
+    evolution.  One implementation run per round for all programs together."""
+    cur = [dict(c) for c in cases]
+    # round 0: prefixes
+    cands = [[{"d": c["d"], "hbar": c["hbar"], "ops": c["ops"][:n]} for n in range(1, len(c["ops"]))] for c in cur]
+    flat = [x for cs in cands for x in cs]
+    if flat:
+        res = run_impl("c07_impl.py", {"seqs": flat}, timeout=900)["seqs"]
+        pos = 0
+        for i, cs in enumerate(cands):
+            for x in cs:
+                if max(seq_error(x["d"], x["hbar"], x["ops"], res[pos + cs.index(x)])) > 1:
+                    cur[i] = x
+                    break
+            pos += len(cs)
+    active = set(range(len(cur)))
+    for _ in range(rounds):
+        cands = {i: [{"d": cur[i]["d"], "hbar": cur[i]["hbar"], "ops": cur[i]["ops"][:n] + cur[i]["ops"][n + 1:]}
+                     for n in range(len(cur[i]["ops"]) - 1)] for i in active}
+        flat = [x for i in sorted(cands) for x in cands[i]]
+        if not flat:
+            break
+        res = run_impl("c07_impl.py", {"seqs": flat}, timeout=900)["seqs"]
+        pos = 0
+        for i in sorted(cands):
+            hit = None
+            for n, x in enumerate(cands[i]):
+                if hit is None and max(seq_error(x["d"], x["hbar"], x["ops"], res[pos + n])) > 1:
+                    hit = x
+            pos += len(cands[i])
+            if hit is None:
+                active.discard(i)
+            else:
+                cur[i] = hit
+        if not active:
+            break
+    # errors of the shrunk programs
+    res = run_impl("c07_impl.py", {"seqs": cur}, timeout=900)["seqs"] if cur else []
+    return [(c,) + seq_error(c["d"], c["hbar"], c["ops"], r) for c, r in zip(cur, res)]
+
+
+def search(chk, tie):
+    """the property stated directly on the implementation (numerically, no Coq model):
+    blocks = documented matrices and symplectic; every program = documented congruence"""
     rng = chk.rng
-    # ---- (a) blocks on a parameter grid
+    T = chk.thorough
+    # ---- (a) blocks on the parameter grid
     greq = []
     for g, ps in GATE_PARAMS.items():
-        grids = [GRID_R if p == "r" else GRID_S if p == "s" else GRID_ANGLE for p in ps]
-        for vals in itertools.product(*grids):
+        for vals in itertools.product(*[_grid(p) for p in ps]):
             greq.append({"gate": g, "params": dict(zip(ps, vals))})
-    # ---- (b) congruence on every (quick: sampled) ordered subset, (c) documented identities
-    sreq, smeta = [], []
+    # ---- (b) programs: entangle -> gate on an ordered subset, compared with the documented congruence
+    progs = []   # (what, case)
     subsets = [(d, m) for d in range(1, 6) for m in ordered_subsets(d)]
-    if not chk.thorough:
+    if not T:
         subsets = [x for x in subsets if x[0] <= 3] + rng.sample([x for x in subsets if x[0] > 3], 50)
-
-    def fgate(name, modes, **params):
-        return {"k": "gate", "name": name, "params": params, "modes": list(modes)}
-
-    def prefix(d):
-        ops = []
-        for i in range(d):
-            ops.append(fgate("Displacement", (i,), r=rng.uniform(-1, 1), phi=rng.uniform(-3, 3)))
-            ops.append(fgate("Squeezing", (i,), r=rng.uniform(-0.7, 0.7), phi=rng.uniform(-3, 3)))
-        order = list(range(d))
-        rng.shuffle(order)
-        for a, b in zip(order, order[1:]):
-            ops.append(fgate("Beamsplitter", (a, b), theta=rng.uniform(-3, 3), phi=rng.uniform(-3, 3)))
-        return ops
-
     for n, (d, modes) in enumerate(subsets):
         k = len(modes)
-        hbar = float(HBARS[n % 4])
-        if k <= 2 and rng.random() < 0.8:
-            name = rng.choice(ONE_MODE if k == 1 else TWO_MODE)
-            par = {p: (rng.uniform(-0.8, 0.8) if p == "r" else rng.uniform(-2, 2) if p == "s" else rng.uniform(-4, 4)) for p in GATE_PARAMS[name]}
-            op = fgate(name, modes, **par)
-            greq.append({"gate": name, "params": par})
-            smeta.append(("cong", d, modes, len(greq) - 1, None, name))
+        finals = []
+        if k == 1:
+            name = rng.choice(ONE_MODE)
+            finals.append(fgate(name, modes, **rand_params(rng, name)))
+        elif k == 2:
+            # always the gates with non-symmetric blocks, plus one other two-mode gate
+            finals.append(fgate("ControlledX", modes, s=rng.uniform(0.3, 2.0) * rng.choice((-1, 1))))
+            finals.append(rand_gaussian_transform(rng, modes))
+            name = rng.choice([g for g in TWO_MODE if g != "ControlledX"])
+            finals.append(fgate(name, modes, **rand_params(rng, name)))
         else:
-            z = np.array([[complex(rng.gauss(0, 1), rng.gauss(0, 1)) for _ in range(k)] for _ in range(k)])
-            q, _ = np.linalg.qr(z)
-            U = [[[float(x.real), float(x.imag)] for x in row] for row in q]
-            op = {"k": "interf", "matrix": U, "modes": list(modes)}
-            smeta.append(("cong", d, modes, None, q, "Interferometer"))
-        sreq.append({"d": d, "hbar": hbar, "ops": prefix(d) + [{"k": "snap"}, op, {"k": "snap"}]})
-    # identities: pairs of programs that must give the same state
-    nid = 40 if chk.thorough else 8
-    for n in range(nid):
+            finals.append({"k": "interf", "matrix": cl(rand_unitary(rng, k)), "modes": list(modes)})
+            finals.append(rand_gaussian_transform(rng, modes))
+        for f in finals:
+            progs.append(("congruence", {"d": d, "hbar": float(HBARS[(n + len(progs)) % 4]),
+                                         "ops": entangled_prefix(rng, d) + [f]}))
+    # ---- (c) every angle parameter of every gate over the wide grid, on displaced entangled states
+    for name, ps in GATE_PARAMS.items():
+        for p in ps:
+            if p in ("r", "s"):
+                continue
+            for n, val in enumerate(GRID_ANGLE):
+                par = rand_params(rng, name)
+                par[p] = val
+                d = rng.randint(2, 3)
+                modes = rng.sample(range(d), 1 if name in ONE_MODE else 2)
+                progs.append(("angle-grid", {"d": d, "hbar": float(HBARS[n % 4]),
+                                             "ops": entangled_prefix(rng, d) + [fgate(name, modes, **par)]}))
+    # ---- (d) documented identities: pairs of programs that must give the same state
+    idents = []  # (what, case_lhs, case_rhs)
+    for n, ang in enumerate(GRID_ANGLE + ([wide_angle(rng) for _ in range(40)] if T else [])):
         d = rng.randint(2, 4)
         i, j = rng.sample(range(d), 2)
         hbar = float(HBARS[n % 4])
-        pre = prefix(d)
-        r, phi, a1, a2 = rng.uniform(-0.8, 0.8), rng.uniform(-3, 3), rng.uniform(-3, 3), rng.uniform(-3, 3)
-        pairs = [
-            ("Fourier = Phaseshifter(pi/2)", [fgate("Fourier", (i,))], [fgate("Phaseshifter", (i,), phi=math.pi / 2)]),
-            ("Beamsplitter5050 = Beamsplitter(pi/4, 0)", [fgate("Beamsplitter5050", (i, j))],
-             [fgate("Beamsplitter", (i, j), theta=math.pi / 4, phi=0.0)]),
-            ("MachZehnder decomposition", [fgate("MachZehnder", (i, j), int_=a1, ext=a2)],
-             [fgate("Phaseshifter", (i,), phi=a2), fgate("Beamsplitter", (i, j), theta=math.pi / 4, phi=math.pi / 2),
-              fgate("Phaseshifter", (i,), phi=a1), fgate("Beamsplitter", (i, j), theta=math.pi / 4, phi=math.pi / 2)]),
-            ("Squeezing2 decomposition", [fgate("Squeezing2", (i, j), r=r, phi=phi)],
-             [fgate("Beamsplitter", (i, j), theta=-math.pi / 4, phi=0.0), fgate("Squeezing", (i,), r=-r, phi=phi),
-              fgate("Squeezing", (j,), r=r, phi=phi), fgate("Beamsplitter", (i, j), theta=math.pi / 4, phi=0.0)]),
-        ]
-        for what, lhs, rhs in pairs:
-            sreq.append({"d": d, "hbar": hbar, "ops": pre + lhs})
-            sreq.append({"d": d, "hbar": hbar, "ops": pre + rhs})
-            smeta.append(("ident", what, d, (i, j), hbar))
-            smeta.append(None)
-        # displacement shift
-        rr, ph = rng.uniform(-2, 2), rng.uniform(-3, 3)
-        kind = rng.choice(DISPL)
-        par = {"Displacement": {"r": rr, "phi": ph}, "PositionDisplacement": {"x": rr}, "MomentumDisplacement": {"p": rr}}[kind]
-        alpha = {"Displacement": rr * complex(math.cos(ph), math.sin(ph)), "PositionDisplacement": complex(rr, 0), "MomentumDisplacement": complex(0, rr)}[kind]
-        sreq.append({"d": d, "hbar": hbar, "ops": pre})
-        sreq.append({"d": d, "hbar": hbar, "ops": pre + [fgate(kind, (i,), **par)]})
-        smeta.append(("disp", kind, d, i, hbar, alpha, par))
-        smeta.append(None)
+        pre = entangled_prefix(rng, d)
+        other = wide_angle(rng)
+        r = rng.uniform(0.2, 0.8) * rng.choice((-1, 1))
+        hp, qp = math.pi / 2, math.pi / 4
+        for a1, a2 in ((ang, other), (other, ang)):
+            idents.append(("MachZehnder decomposition", [fgate("MachZehnder", (i, j), int_=a1, ext=a2)],
+                           [fgate("Phaseshifter", (i,), phi=a2), fgate("Beamsplitter", (i, j), theta=qp, phi=hp),
+                            fgate("Phaseshifter", (i,), phi=a1), fgate("Beamsplitter", (i, j), theta=qp, phi=hp)], d, hbar, pre))
+        idents.append(("Squeezing2 decomposition", [fgate("Squeezing2", (i, j), r=r, phi=ang)],
+                       [fgate("Beamsplitter", (i, j), theta=-qp, phi=0.0), fgate("Squeezing", (i,), r=-r, phi=ang),
+                        fgate("Squeezing", (j,), r=r, phi=ang), fgate("Beamsplitter", (i, j), theta=qp, phi=0.0)], d, hbar, pre))
+        if n < 4 or T:
+            idents.append(("Fourier = Phaseshifter(pi/2)", [fgate("Fourier", (i,))], [fgate("Phaseshifter", (i,), phi=hp)], d, hbar, pre))
+            idents.append(("Beamsplitter5050 = Beamsplitter(pi/4, 0)", [fgate("Beamsplitter5050", (i, j))],
+                           [fgate("Beamsplitter", (i, j), theta=qp, phi=0.0)], d, hbar, pre))
+        kind = DISPL[n % 3]
+        rr = rng.uniform(0.3, 2.0) * rng.choice((-1, 1))
+        par = {"Displacement": {"r": rr, "phi": ang}, "PositionDisplacement": {"x": rr}, "MomentumDisplacement": {"p": rr}}[kind]
+        progs.append(("displacement", {"d": d, "hbar": hbar, "ops": pre + [fgate(kind, (i,), **par)]}))
+    sreq = [c for _, c in progs]
+    for what, lhs, rhs, d, hbar, pre in idents:
+        sreq.append({"d": d, "hbar": hbar, "ops": pre + lhs})
+        sreq.append({"d": d, "hbar": hbar, "ops": pre + rhs})
     res = run_impl("c07_impl.py", {"blocks": greq, "seqs": sreq}, timeout=3000)
     lap(chk, "impl search")
     neval = 0
     K2 = lambda n: np.diag([1.0] * n + [-1.0] * n)
     # (a)
-    ngrid = sum(len(list(itertools.product(*[GRID_R if p == "r" else GRID_S if p == "s" else GRID_ANGLE for p in ps]))) for ps in GATE_PARAMS.values())
-    for q, r in list(zip(greq, res["blocks"]))[:ngrid]:
+    for q, r in zip(greq, res["blocks"]):
         neval += 1
         P = _c(r["P"])
         A = None if r["A"] is None else _c(r["A"])
@@ -465,57 +661,70 @@ def search(chk, cases):
         if not err <= 1e-9 * scale:
             chk.violation("C07:%s:block-not-%s" % (q["gate"], "unitary" if A is None else "symplectic"),
                           "S K S^dagger != K for the gate's ladder-operator matrix", {"gate": q["gate"], "params": q["params"], "error": float(err)})
-    # (b), (c)
-    it = iter(zip(smeta, res["seqs"]))
-    allres = res["seqs"]
-    for idx, meta in enumerate(smeta):
-        if meta is None:
-            continue
-        r = allres[idx]
+        dP, dA = doc_blocks(q["gate"], q["params"])
+        errd = np.abs(P - dP).max() + (0 if A is None else np.abs(A - dA).max())
+        if not errd <= 1e-9 * (1 + np.abs(dP).max() + max(1.0, max(abs(v) for v in q["params"].values()) if q["params"] else 1.0) * 1e-6):
+            chk.violation("C07:%s:block-not-as-documented" % q["gate"],
+                          "the gate's ladder-operator blocks differ from the documented matrix",
+                          {"gate": q["gate"], "params": q["params"], "error": float(errd),
+                           "got_P": cl(P), "documented_P": cl(dP)})
+    # (b), (c), displacement
+    failing = {}
+    for (what, case), r in zip(progs, res["seqs"]):
         neval += 1
-        if meta[0] == "cong":
-            _, d, modes, bi, U, name = meta
-            if bi is not None:
-                b = res["blocks"][bi]
-                S = _embed(d, modes, _c(b["P"]), None if b["A"] is None else _c(b["A"]))
-            else:
-                S = _embed(d, modes, U, None)
-            s0, s1 = r["snaps"]
-            mu0, mu1 = _c(s0["mu_c"]), _c(s1["mu_c"])
-            sg0, sg1 = _c(s0["sigma_c"]), _c(s1["sigma_c"])
-            tolm = 1e-9 * (1 + np.abs(mu1).max())
-            tols = 1e-9 * (1 + np.abs(sg1).max())
-            if not (np.abs(S @ mu0 - mu1).max() <= tolm and np.abs(S @ sg0 @ S.conj().T - sg1).max() <= tols):
-                chk.violation("C07:GaussianSimulator:%s:not-a-congruence:k=%d" % (name, len(modes)),
-                              "state after the gate is not S mu, S sigma S^dagger with the embedded symplectic matrix",
-                              {"d": d, "modes": list(modes), "gate": name, "ops": sreq[idx]["ops"],
-                               "mean_error": float(np.abs(S @ mu0 - mu1).max()),
-                               "cov_error": float(np.abs(S @ sg0 @ S.conj().T - sg1).max())})
-        elif meta[0] == "ident":
-            _, what, d, ij, hbar = meta
-            r2_ = allres[idx + 1]
-            e1 = np.abs(np.array(r["mean"]) - np.array(r2_["mean"])).max()
-            e2 = np.abs(np.array(r["cov"]) - np.array(r2_["cov"])).max()
-            tol = 1e-9 * (1 + np.abs(np.array(r["cov"])).max())
-            if not (e1 <= tol and e2 <= tol):
-                chk.violation("C07:identity:%s" % what, "documented identity fails on GaussianSimulator",
-                              {"d": d, "modes": list(ij), "hbar": hbar, "lhs": sreq[idx]["ops"][-1:], "rhs": sreq[idx + 1]["ops"][-4:],
-                               "mean_error": float(e1), "cov_error": float(e2)})
-        elif meta[0] == "disp":
-            _, kind, d, i, hbar, alpha, par = meta
-            r2_ = allres[idx + 1]
-            shift = np.zeros(2 * d)
-            shift[i] = math.sqrt(2 * hbar) * alpha.real
-            shift[d + i] = math.sqrt(2 * hbar) * alpha.imag
-            e1 = np.abs(np.array(r2_["mean"]) - np.array(r["mean"]) - shift).max()
-            e2 = np.abs(np.array(r2_["cov"]) - np.array(r["cov"])).max()
-            if not (e1 <= 1e-9 * (1 + np.abs(shift).max()) and e2 <= 1e-12):
-                chk.violation("C07:%s:shift" % kind, "displacement does not shift the xxpp mean by sqrt(2 hbar) alpha",
-                              {"d": d, "mode": i, "hbar": hbar, "params": par, "mean_error": float(e1), "cov_error": float(e2)})
-    chk.stream("direct search on the implementation: symplecticity on a parameter grid (0, pi/2, pi, negative, 1e-8, 1e3), "
-               "congruence with the embedded matrix on ordered subsets, documented identities, displacement shift",
+        em, ec = seq_error(case["d"], case["hbar"], case["ops"], r)
+        if max(em, ec) > 1:
+            failing.setdefault(fail_key(case, em, ec), []).append((case, em, ec))
+    # the programs of the tie, against the same reference (concrete inputs for a broken correspondence)
+    if tie:
+        for c, r in tie:
+            neval += 1
+            ops = [o[0] for o in c["ops"]]
+            em, ec = seq_error(c["d"], float(c["hbar"]), ops, r)
+            if max(em, ec) > 1:
+                cc = {"d": c["d"], "hbar": float(c["hbar"]), "ops": ops}
+                failing.setdefault(fail_key(cc, em, ec), []).append((cc, em, ec))
+    reps = []
+    for key, lst in sorted(failing.items()):
+        reps.append(min(lst, key=lambda t: (len(t[0]["ops"]), t[0]["d"]))[0])
+    reps = reps[:10]
+    reported = set()
+    for case, em, ec in (shrink_many(reps) if reps else []):
+        if max(em, ec) <= 1:
+            continue
+        key = fail_key(case, em, ec)
+        if key in reported:
+            continue
+        reported.add(key)
+        chk.violation(key, "xxpp mean/covariance after the program differ from the congruence by the documented "
+                      "symplectic matrices (%d failing programs in %d classes before shrinking)"
+                      % (sum(len(l) for l in failing.values()), len(failing)),
+                      {"d": case["d"], "hbar": case["hbar"], "program": case["ops"],
+                       "mean_error_in_units_of_tolerance": em, "cov_error_in_units_of_tolerance": ec,
+                       "call": "GaussianSimulator(d, Config(hbar)).execute(program) from vacuum; see harness/impl/c07_impl.py"})
+    if failing and not reported:
+        key, lst = sorted(failing.items())[0]
+        case, em, ec = lst[0]
+        chk.violation(key, "xxpp mean/covariance differ from the documented congruence (not reproduced while shrinking)",
+                      {"d": case["d"], "hbar": case["hbar"], "program": case["ops"]})
+    # (d)
+    base = len(progs)
+    for n, (what, lhs, rhs, d, hbar, pre) in enumerate(idents):
+        neval += 1
+        r1, r2_ = res["seqs"][base + 2 * n], res["seqs"][base + 2 * n + 1]
+        scale = 1e-9 * (1 + np.abs(np.array(r1["cov"])).max())
+        e1 = np.abs(np.array(r1["mean"]) - np.array(r2_["mean"])).max()
+        e2 = np.abs(np.array(r1["cov"]) - np.array(r2_["cov"])).max()
+        if not (e1 <= scale and e2 <= scale):
+            chk.violation("C07:identity:%s" % what, "documented identity fails on GaussianSimulator",
+                          {"d": d, "hbar": hbar, "prefix": pre, "lhs": lhs, "rhs": rhs,
+                           "mean_error": float(e1), "cov_error": float(e2)})
+    chk.stream("direct search on the implementation: blocks symplectic and equal to the documented matrices on a grid "
+               "(0, pi/2, pi, negative, 1e-8, 1e3, and angles beyond pi, 2pi, 3pi, 4pi in both signs for every angle parameter); "
+               "entangle -> gate (incl. ControlledX and generic GaussianTransform on every 2-mode subset) = documented congruence; "
+               "documented identities and displacement shift on displaced entangled states",
                neval, neval // 2, kind="search",
-               samples=[{"gate": greq[3]["gate"], "params": greq[3]["params"]}])
+               samples=[{"program": progs[5][1]["ops"][-1], "d": progs[5][1]["d"]}])
 
 
 def finish(chk, corr_broken):
